@@ -111,6 +111,21 @@ class Flow:
                 u = (tau - b) / w
                 s = u * u * (3 - 2 * u)
             return s * self.L0
+        if f == "pulse":
+            # compact support in time: exactly zero outside (a, b), smooth C1 bump inside
+            a, b = self.gate
+            if not (a < tau < b):
+                return np.zeros((3, 3))
+            u = (tau - a) / (b - a)
+            return (16.0 * u * u * (1 - u) * (1 - u)) * self.L0
+        if f == "band":
+            # compact support in space: a shear band of half-width w around the plane
+            # n.x = c, exactly zero outside (rigid regions on both sides)
+            n = np.asarray(self.spec["n"], dtype=float)
+            d = (float(n @ np.asarray(x, dtype=float)) - float(self.spec["c"])) / float(self.spec["w"])
+            if not (-1.0 < d < 1.0):
+                return np.zeros((3, 3))
+            return ((1 - d * d) ** 2) * self.L0
         if self._pd is not None:
             return np.asarray(self._pd(tau, np.asarray(x, dtype=float)), dtype=float)
         raise ValueError(f)
